@@ -11,13 +11,13 @@ class C04(ModelCheck):
     focus = ('group_by',)
     kinds = KINDS
     rule = ('case = program with group_by(key_mapper) whose key values are equal-but-never-identical ints, big ints, floats, strings and tuples '
-            '(items are rebuilt per event), at top level and nested in group_by / roll / split, x seeded interleaving of up to 12 parties; '
+            '(items are rebuilt per event), at top level, nested in group_by / roll / split and three levels deep (group_by > roll or split > group_by), x seeded interleaving of up to 12 parties; '
             'the partition model (linear == search, first-appearance order) is checked between the tap in front of group_by and the head tap of its '
             'inner pipeline (one group per distinct key, exact subsequence, creation with the first item, open groups completed at the parent\'s '
             'completion in first-appearance order) and the demux from tail tap to output ("results are emitted as they are produced"). '
             'non-trivial: >= 2 groups and >= 3 events; distinct = distinct (program, schedule)')
     assumptions = ['NaN keys are not generated']
-    probe_names = ('key:impure_round_robin', 'key:mixed_equal_types', 'long_stream', 'keys>=5', 'nested_in_window', 'nested_in_group_by', 'key:big', 'key:tuple', 'key:str', 'key:float')
+    probe_names = ('group_by>window>group_by', 'key:impure_round_robin', 'key:mixed_equal_types', 'long_stream', 'keys>=5', 'nested_in_window', 'nested_in_group_by', 'key:big', 'key:tuple', 'key:str', 'key:float')
     values = ('small', 'small', 'inc', 'runs', 'dups', 'wide')
 
     def gen_program(self, rng, tier):
@@ -27,8 +27,16 @@ class C04(ModelCheck):
         inner = g.pipeline(St('rec'), Flags(deny=('time_split', 'progress')), rng.choice([0, 1, 1]), rng.choice([1, 2, 2, 3]))
         node = {'op': 'group_by', 'key': key, 'inner': inner}
         shape = rng.random()
-        if shape < 0.5:
+        if shape < 0.4:
             return [node]
+        if shape < 0.5:
+            # three levels: several parents of the inner group_by alive at once, with sparse parent indices (overlapping windows) or
+            # parents that end at different moments (segments)
+            if rng.random() < 0.5:
+                mid = {'op': 'roll', 'window': rng.randint(2, 5), 'stride': rng.randint(1, 4), 'inner': [node]}
+            else:
+                mid = {'op': 'split', 'key': rng.choice(['rv_mod3', 'rn_div3', 'rv_div2big']), 'inner': [node]}
+            return [{'op': 'group_by', 'key': rng.choice(['rk', 'rk_big', 'rk_tup']), 'inner': [mid]}]
         if shape < 0.65:
             return [{'op': 'group_by', 'key': rng.choice(['rk', 'rv_mod3', 'rk_tup']), 'inner': [node]}]
         if shape < 0.85:
@@ -48,6 +56,8 @@ class C04(ModelCheck):
             p['nested_in_window'] += 1
         if top == 'group_by' and len(gb) >= 2:
             p['nested_in_group_by'] += 1
+            if case['program'][0]['inner'] and case['program'][0]['inner'][0]['op'] in ('roll', 'split'):
+                p['group_by>window>group_by'] += 1
         for n in gb:
             k = n['key']
             if 'big' in k:
